@@ -2069,7 +2069,12 @@ impl<F: VfsFile> BPlusTree<F> {
 
 		// Proceed with redistribution
 		let new_separator = left_node.redistribute_to_right(right_node);
+		let old_sep_overflow = parent.get_overflow_at(left_idx);
 		parent.keys[left_idx] = new_separator;
+		parent.set_overflow_at(left_idx, 0);
+		if old_sep_overflow != 0 {
+			self.free_overflow_chain(old_sep_overflow)?;
+		}
 
 		self.write_node_owned(NodeType::Leaf(left_node.clone()))?;
 		self.write_node_owned(NodeType::Leaf(right_node.clone()))?;
@@ -2133,7 +2138,12 @@ impl<F: VfsFile> BPlusTree<F> {
 
 		// Proceed with redistribution
 		let new_separator = left_node.take_from_right(right_node);
+		let old_sep_overflow = parent.get_overflow_at(left_idx);
 		parent.keys[left_idx] = new_separator;
+		parent.set_overflow_at(left_idx, 0);
+		if old_sep_overflow != 0 {
+			self.free_overflow_chain(old_sep_overflow)?;
+		}
 
 		self.write_node_owned(NodeType::Leaf(left_node.clone()))?;
 		self.write_node_owned(NodeType::Leaf(right_node.clone()))?;
